@@ -563,7 +563,8 @@ int main(int argc, char** argv) {
   const unsigned poolMax  = galois::substrate::getThreadPool().getMaxThreads();
   const unsigned maxT     = std::min<unsigned>({(unsigned)H.paramInt("maxthreads", 2), MAXS, poolMax});
   const uint32_t maxCount = (uint32_t)H.paramInt("maxcount", H.thorough ? 10000 : 2000);
-  const double patience   = (double)H.paramInt("patience", 40);
+  // VERIF_C17_PATIENCE: development aid for mutation trials (a tree that loses messages costs one window per case)
+  const double patience = getenv("VERIF_C17_PATIENCE") ? atof(getenv("VERIF_C17_PATIENCE")) : (double)H.paramInt("patience", 40);
   const long selftest     = H.paramInt("selftest", 0);
   static const char* MODES[] = {"mixed", "overlap", "two-tag", "multi-thread", "large"};
   uint64_t phaseSerial = 0, barrierSerial = 0;
